@@ -61,7 +61,10 @@ RULE = ("per decoder: every byte string up to length k over the decoder's dispat
         "(length bytes, header counts, compression pointers incl. self / forward / cyclic, truncation, "
         "nesting depth); discovery: 1..4 well-formed devices x one hostile host (garbage datagrams, pointer "
         "loops, TXT values on which handlers / device_info / service_info raise) x multicast and unicast "
-        "scanner; ~150 well-formed DNS messages with hostile record CONTENT (PTR/SRV targets and owners that are not "
+        "scanner; a hostile host at its own address that copies a good device's identifiers / names and answers first; "
+        "HTTP messages with every Content-Length value from -(size+8) to +6, huge and non-numeric ones through all three "
+        "HTTP receive loops; RAOP control datagrams (type x sequence numbers around the 2^16 wrap x counts up to 65535) "
+        "and timing datagrams; ~150 well-formed DNS messages with hostile record CONTENT (PTR/SRV targets and owners that are not "
         "instance/host/type names, ports 0/65535, TXT without '=', empty / 1- / 2-label names, records owned by the bare "
         "type, mismatched record types, instance names the handlers split) from a host that answers every unicast query; "
         "every TXT key read by a protocol module x near-match strings of every extracted regex (in a child "
@@ -107,6 +110,18 @@ def while_line(func, index=0):
     src = textwrap.dedent(inspect.getsource(func))
     tree = ast.parse(src)
     loops = [n for n in ast.walk(tree) if isinstance(n, ast.While)]
+    loops.sort(key=lambda n: n.lineno)
+    if index >= len(loops):
+        return func.__code__, -1
+    return func.__code__, func.__code__.co_firstlineno + loops[index].lineno - 1
+
+
+def loop_line(func, index=0):
+    """(code object, absolute line) of the `index`-th loop statement (`for` or `while`) of `func`: its head line is
+    reached once per iteration and once more when the loop is left through its test"""
+    func = inspect.unwrap(getattr(func, "__func__", func))
+    tree = ast.parse(textwrap.dedent(inspect.getsource(func)))
+    loops = [n for n in ast.walk(tree) if isinstance(n, (ast.While, ast.For))]
     loops.sort(key=lambda n: n.lineno)
     if index >= len(loops):
         return func.__code__, -1
@@ -232,6 +247,12 @@ class Decoders:
         self.t_http = T([while_line(http.HttpConnection.data_received)])
         self.t_server = T([while_line(http.BasicHttpServer.data_received)])
         self.t_var = T()
+        from pyatv.protocols.raop import stream_client
+        from pyatv.protocols.raop import protocols as raop_protocols
+        self.stream_client, self.raop_protocols = stream_client, raop_protocols
+        # the largest request a 16-bit count allows walks 65535 sequence numbers (~10 line events each)
+        self.t_control = T([loop_line(stream_client.ControlClient._retransmit_lost_packets)], budget=25 * EVENT_BUDGET)
+        self.t_timing = T()
         self.t_plain = T()
         self.t_opack = T()
         self.t_flags = T()
@@ -425,6 +446,32 @@ class Decoders:
         elif r["status"] != "ok":
             err = r["status"]
         return "%s %d %s %d" % ("?" if msgs is None else msgs, rest, err, r["hits"][0])
+
+    # -- RAOP UDP datagram handlers ------------------------------------------------------------
+    def control(self, data):
+        """`ControlClient.datagram_received` (control port of an active stream) with a backlog around the
+        sequence-number wrap"""
+        from pyatv.protocols.raop.fifo import PacketFifo
+        backlog = PacketFifo(1000)
+        for seqno in list(range(65500, 65536)) + list(range(0, 40)):
+            backlog[seqno] = b"\x80\x60" + seqno.to_bytes(2, "big") + b"audio"
+        obj = self.stream_client.ControlClient(None, backlog)
+        sent = []
+
+        class Transport:
+            def sendto(self, data, addr=None):
+                sent.append(bytes(data[2:4]))
+        obj.connection_made(Transport())
+        r = self.t_control.run(lambda: obj.datagram_received(data, ("10.0.0.9", 6001)))
+        iters = max(0, r["hits"][0] - 1) if r["hits"][0] else 0
+        st = r["status"] if r["status"] in ("ok", "skipped") or not r["status"].startswith("err:") else "err"
+        return "%s %d %d" % (st, iters, len(sent)), r, iters
+
+    def timing(self, data):
+        obj = self.raop_protocols.TimingServer()
+        obj.connection_made(_Sink())
+        r = self.t_timing.run(lambda: obj.datagram_received(data, ("10.0.0.9", 6002)))
+        return r["status"], r, 1
 
     # -- flags ---------------------------------------------------------------------------------
     def flags(self, text):
@@ -822,6 +869,74 @@ def run_loops(ctx, D, bench):
     for dec, fn, line in (("event", D.event, "loop event "), ("server", D.server, "loop server ")):
         impl, r, it = fn(w)
         bench.add(dec, hx(w), line + hx(w), impl, r, it)
+
+
+def http_value_messages(kind):
+    """Valid HTTP/RTSP messages whose header VALUES are hostile: every Content-Length from minus (message size + 8)
+    to +6 (so also minus the size of the header block, where an offset computation lands on 0) and huge /
+    non-numeric ones, with and without body and with a second message behind."""
+    first = {"request": ["POST /command RTSP/1.0", "GET / HTTP/1.1"], "response": ["RTSP/1.0 200 OK"]}[kind]
+    out = []
+    for line in first:
+        for extra in ("", "CSeq: 1\r\n"):
+            for body in (b"", b"abc", b"abcdef" + (line + "\r\n\r\n").encode()):
+                size = len(line) + 2 + len("Content-Length: -999\r\n") + len(extra) + 2 + len(body)
+                values = [str(v) for v in range(-(size + 8), 7)] + ["-100000", "-2147483648", "-%d" % 2 ** 64, "1000000",
+                                                                  "%d" % 2 ** 63, "x", "", "1e3", "0x10", "-", "--1", "-0"]
+                for v in values:
+                    head = "%s\r\n%sContent-Length: %s\r\n\r\n" % (line, extra, v) if extra == "" or len(v) % 2 else \
+                        "%s\r\nContent-Length: %s\r\n%s\r\n" % (line, v, extra)
+                    out.append((v, head.encode() + body))
+    return out
+
+
+def run_http_values(ctx, D, bench):
+    """Every HTTP receive loop of the library on header values of otherwise valid messages."""
+    import re as _re
+    for kind, targets in (("request", (("event", D.event, "loop event "), ("server", D.server, "loop server "))),
+                          ("response", (("http", D.httpc, "drain http "),))):
+        msgs = http_value_messages(kind)
+        if not ctx.thorough:
+            msgs = [m for i, m in enumerate(msgs) if i % 2 == 0 or not _re.fullmatch(r"-?\d+", m[0]) or len(m[0]) > 4]
+        for v, buf in msgs:
+            # the model's Content-Length is a natural number: signed / non-decimal spellings int() accepts are oracle-only
+            modelled = bool(_re.fullmatch(r"\d+|x|1e3|0x10|", v))
+            for dec, fn, line in targets:
+                impl, r, it = fn(buf)
+                bench.add(dec if modelled else dec + "-length-value", hx(buf), line + hx(buf) if modelled else None, impl, r, it)
+                ctx.note("http-length:%s" % ("negative" if v.startswith("-") else "other"))
+
+
+def run_raop_datagrams(ctx, D, bench):
+    """The UDP handlers of an audio stream: control port (retransmit requests: every type byte class x sequence numbers
+    around the 2^16 wrap x packet counts incl. the largest), timing port."""
+    types = [0x55, 0xD5, 0x54, 0xD6, 0x00]
+    seqnos = [0, 1, 2, 39, 40, 100, 32767, 32768, 65499, 65500, 65530, 65534, 65535]
+    counts = [0, 1, 2, 5, 6, 10, 36, 37, 100, 1000]
+    lines, rows = [], []
+    for t in types:
+        for s_ in seqnos:
+            for c in counts:
+                if t not in (0x55, 0xD5) and (s_ not in (0, 65535) or c not in (0, 10)):
+                    continue
+                rows.append(struct.pack(">BBHHH", 0x80, t, 7, s_, c))
+    for s_, c in ((65436, 65535), (0, 65535)) + (((65535, 65535), (1, 65534)) if ctx.thorough else ()):
+        rows.append(struct.pack(">BBHHH", 0x80, 0xD5, 7, s_, c))
+    full = struct.pack(">BBHHH", 0x80, 0xD5, 7, 65530, 10)
+    rows += [full[:k] for k in range(8)] + [full + b"\x00", full + full]
+    for data in rows:
+        impl, r, it = D.control(data)
+        bench.add("raop-control", hx(data), "control " + hx(data), " ".join(impl.split(" ")[:2]), r, it)
+        if r["status"] == "ok" and len(data) == 8 and data[1] & 0x7F == 0x55:
+            want = struct.unpack(">H", data[6:8])[0]
+            if it != want:
+                ctx.fail("raop-control:wrong-number-of-rounds", {"decoder": "raop-control", "input": hx(data)}, it,
+                         "%d rounds (the request's packet count)" % want, "retransmit loop does not make one round per lost packet")
+    rng = ctx.rng.fork("timing")
+    for n in list(range(0, 34)) + [40, 64]:
+        data = rng.bytes_(n)
+        impl, r, it = D.timing(data)
+        bench.add("raop-timing", hx(data), None, impl, r, it)
 
 
 def run_flags(ctx, D, bench):
@@ -1327,6 +1442,24 @@ def content_payloads():
     return [("content:" + label, [("wire", recs)]) for label, recs in out]
 
 
+def clone_payloads(devs):
+    """A hostile host at its OWN address and host name that re-announces a well-formed device's publicly broadcast
+    identity: the same instance names, TXT records (deviceid, UniqueIdentifier, rpMRtID, …) and ports.  Its
+    datagrams arrive first ("-first") or last.  The victim must still be found AND returned by `pyatv.scan`."""
+    from harness import c12
+    out = []
+    for label, victim, services in (("all-first", devs[0], None), ("one-service-first", devs[-1], 1),
+                                    ("all-last", devs[len(devs) // 2], None)):
+        evil = dict(victim, addr=BAD_ADDR, host=BAD_ADDR, linklocal=False, sleeping=False)
+        recs = []
+        for svc in victim["services"][:services]:
+            for r in c12.svc_records(evil, svc):
+                if r not in recs:
+                    recs.append(r)
+        out.append(("clone-identity-" + label, [("recs", recs)]))
+    return out
+
+
 def good_devices(rng, n):
     from harness import c12
     devs = []
@@ -1385,13 +1518,17 @@ def build_case(rng, mode, devs, payload):
                 d["raw"] = pack_content(j if mode == "u" else 50 + j, body, mode).hex()
                 d["content"] = True          # decodes fine: outside the model's garbage = empty datagram reading
             bad.append(d)
+        first = payload[0].endswith("-first")
+        last = payload[0].endswith("-last")
         if mode == "m":
-            for d in bad:
-                dgrams.insert(rng.randint(0, len(dgrams)), d)
+            for k, d in enumerate(bad):
+                dgrams.insert(k if first else len(dgrams) if last else rng.randint(0, len(dgrams)), d)
         else:
             dgrams = dgrams + bad
-            if rng.chance(0.5):
+            if first or (not last and rng.chance(0.5)):
                 dgrams = bad + dgrams[:-len(bad)]
+            if first:
+                hosts = [BAD_ADDR] + [h for h in hosts if h != BAD_ADDR]      # results follow the order of `hosts`
     base = {"mode": mode, "protoset": None, "hosts": hosts, "enc": rng.choice(["r", "c"]), "absent": [], "consistent": True}
     return dict(base, dgrams=dgrams), dict(base, dgrams=good, hosts=[h for h in hosts if h != BAD_ADDR])
 
@@ -1479,7 +1616,7 @@ def run_discovery(ctx, child, strings, culprits=()):
                     mine = [c for i, c in enumerate(contents) if ndev == (1 + (i + rep) % 4 if mode == "u" else 2 + (i + rep) % 2)]
                 else:
                     mine = [c for i, c in enumerate(contents) if rep == 0 and (ndev == 2 + i % 2 if mode == "u" else ndev == 2 and i % 3 == 0)]
-                for payload in payloads + mine:
+                for payload in payloads + mine + clone_payloads(devs):
                     if payload[0].startswith("txt-string") and (ndev + rep) % 2 and not ctx.thorough:
                         continue
                     if stuck >= 3:
@@ -1540,6 +1677,8 @@ def run(ctx):
         run_small(ctx, D, bench)
         run_loops(ctx, D, bench)
         run_flags(ctx, D, bench)
+        run_http_values(ctx, D, bench)
+        run_raop_datagrams(ctx, D, bench)
         run_opack(ctx, D, bench)
         run_dmap(ctx, D, bench)
         strip = {"companion": lambda s: " ".join(s.split(" ")[1:])}      # frames are not observable for Companion
@@ -1600,13 +1739,14 @@ def replay(ctx, failure):
     except ValueError:
         return True                                   # descriptive inputs (deep TLV …): re-run the check
     from pyatv.protocols.dmap import tag_definitions
-    base = dec.replace("-negative-length", "")
+    base = dec.replace("-negative-length", "").replace("-length-value", "")
     fn = {"name": lambda: D.name(data, inp[1]), "dns": lambda: D.dnsmsg(data), "tlv": lambda: D.tlv(data),
           "var": lambda: D.var(data), "mrp": lambda: D.mrp(data), "companion": lambda: D.companion(data),
           "hap": lambda: D.hap(data), "data": lambda: D.data(data), "data-real-payload": lambda: D.data(data, False),
           "event": lambda: D.event(data), "server": lambda: D.server(data), "http": lambda: D.httpc(data),
           "pb": lambda: D.pb(data), "pb-real-protobuf": lambda: D.pb(data, False), "opack": lambda: D.opack_(data),
           "dmap": lambda: D.dmap(data, tag_definitions.lookup_tag),
+          "raop-control": lambda: D.control(data), "raop-timing": lambda: D.timing(data),
           "flags": lambda: D.flags(data.decode())}.get(base)
     if fn is None:
         return True
